@@ -351,6 +351,11 @@ def build(cfg, world=None, error_handler='reraise', stage_hook=None):
             res[n] = w.resources.setdefault(('R', n), Sent('res:R:%s' % n))
         route = Route(pattern, ep, rn, middlewares=route_mws, resources=res, methods=rt.get('methods'))
         b.route = route
+        # the caller goes on using its own list (a growing stack for the next route): the route keeps what it was declared with
+        stray = {'tid': 77, 'style': 'func', 'request': [], 'endpoint': None, 'render': None, 'unique': False, 'reorderable': True,
+                 'provides': [], 'endpoint_provides': [], 'render_provides': []}
+        route_mws.append(make_mw(w, 'STRAY.R', stray))
+        res['stray_resource'] = Sent('leak:stray')
         entry = route
         prefix = ''
         apps = []
@@ -388,6 +393,7 @@ def build(cfg, world=None, error_handler='reraise', stage_hook=None):
                     smws.append(make_mw(w, 'S%d.m%d' % (k, j), mw))
                 sep = make_function(w, 'S%d.ep' % k, [], 'func', False, {'kind': 'ep', 'returns': 'response'})
                 sroute = Route('/sib%d' % k + ''.join('/<%s>' % u for u in sib.get('url') or []), sep, middlewares=smws)
+                smws.append(make_mw(w, 'STRAY.S%d' % k, stray))
                 (before if sib['pos'] == 'before' else after).append(sroute)
             if i == 0 and cfg.get('decoy') and (rt.get('url') or []):
                 # a route bound *before* the one under test that matches the same paths but not the method: it is
@@ -404,6 +410,8 @@ def build(cfg, world=None, error_handler='reraise', stage_hook=None):
             entries = before + [entry] + after
             if cfg.get('build') == 'add':
                 app = Application(resources=res, middlewares=mws, error_handler=mk_handler())
+                mws.append(make_mw(w, 'STRAY.%s' % level_key(i), stray))
+                res['stray_resource'] = Sent('leak:stray')
                 for e_ in entries:
                     app.add(e_)
             else:
